@@ -73,3 +73,18 @@ def spec_and_combo(draw, noise_types=sdes.NOISE_TYPES, dtypes=("float64",), incl
 def combo_label(combo):
     gf = "+grad_free" if (combo.get("options") or {}).get("grad_free") else ""
     return f"{combo['sde_type']}/{combo['noise_type']}/{combo['method']}{gf}"
+
+
+def enumerate_cells(salt, all_levy=False, include_grad_free=True, dtype="float64"):
+    """Yield (rnd, spec, combo) for every accepted (sde_type, noise_type, method, options, Levy mode) cell with a small
+    time-dependent generic SDE; the PRNG is seeded by VERIF_SEED so another seed explores other weights, never fewer cells."""
+    import os
+    import random
+    seed = int(os.environ.get("VERIF_SEED", "1") or 1)
+    for idx, combo in enumerate(sdes.accepted_combos(include_grad_free=include_grad_free, all_levy=all_levy)):
+        rnd = random.Random(seed * salt + idx)
+        nt = combo["noise_type"]
+        spec = {"sde_type": combo["sde_type"], "noise_type": nt, "d": 2, "m": 1 if nt == "scalar" else 2,
+                "batch": rnd.choice([1, 2, 3]), "hidden": 3, "seed": rnd.randrange(2 ** 31), "tdep": True,
+                "fscale": 1.0, "gscale": 0.7, "dtype": dtype}
+        yield rnd, spec, combo
